@@ -20,7 +20,14 @@ import (
 	"time"
 )
 
-const root = "/verif"
+var root = envOr("VERIF_ROOT", "/verif")
+
+func envOr(k, d string) string {
+	if v := os.Getenv(k); v != "" {
+		return v
+	}
+	return d
+}
 
 type TierCfg struct {
 	Checks   int               `json:"checks,omitempty"`   // rapid checks per shard
@@ -113,15 +120,14 @@ func main() {
 	}
 	id := os.Args[1]
 	mode := os.Args[2]
-	cfgs := map[string]PropCfg{}
-	if err := loadJSON(filepath.Join(root, "checks.json"), &cfgs); err != nil {
-		fmt.Fprintln(os.Stderr, "checks.json:", err)
+	// per-property configuration lives next to the property's package
+	cfg := PropCfg{}
+	if err := loadJSON(filepath.Join(root, "harness", "props", strings.ToLower(id), "check.json"), &cfg); err != nil {
+		fmt.Fprintln(os.Stderr, "unknown property or bad check.json for", id, ":", err)
 		os.Exit(2)
 	}
-	cfg, ok := cfgs[id]
-	if !ok {
-		fmt.Fprintln(os.Stderr, "unknown property", id)
-		os.Exit(2)
+	if cfg.Pkg == "" {
+		cfg.Pkg = "./props/" + strings.ToLower(id)
 	}
 	known := Known{}
 	_ = loadJSON(filepath.Join(root, "known_findings.json"), &known)
@@ -153,7 +159,7 @@ func build(id string, cfg PropCfg) (string, error) {
 	_ = os.MkdirAll(outDir, 0o755)
 	bin := filepath.Join(outDir, strings.ToLower(id)+".test")
 	// go.sum of the harness must contain the repository's sums
-	if b, err := os.ReadFile("/repo/go.sum"); err == nil {
+	if b, err := os.ReadFile(filepath.Join(envOr("VERIF_REPO", "/repo"), "go.sum")); err == nil {
 		hs := filepath.Join(root, "harness", "go.sum")
 		if cur, err2 := os.ReadFile(hs); err2 != nil || len(cur) == 0 {
 			_ = os.WriteFile(hs, b, 0o644)
